@@ -59,6 +59,38 @@ theorem shorthand (cur p : Bytes) (hp : cColon ∉ p) :
         unfold validName at hv; cases h : (lastComp (a :: t)).isEmpty <;> simp_all
       simp [this]
 
+/-- `CanBeShortened` is exactly "the shorthand spelling denotes this label": for a label the parser can produce
+    (no colon in the package, valid name) in a non-root package, `//pkg` parses to the label iff the name is the last
+    element of the package path.  So `$(bin //tools/lint)` can only ever refer to `//tools/lint:lint`, never to another
+    target of that package whose name merely ends the same way. -/
+theorem canBeShortened_iff (cur : Bytes) (l : Label) (hp : cColon ∉ l.pkg) (hn : validName l.name = true)
+    (hne : l.pkg ≠ []) :
+    l.canBeShortened = true ↔ parseLabel cur l.shortBytes = some l := by
+  have hs := shorthand cur l.pkg hp
+  unfold Label.canBeShortened Label.shortBytes
+  rw [hs]
+  constructor
+  · intro h
+    have e : lastComp l.pkg = l.name := by simpa using (beq_iff_eq.mp h).symm
+    rw [e]
+    exact parse_print_label cur l hp hn
+  · intro h
+    -- the explicit spelling `//pkg:last(pkg)` parses to ⟨pkg, last(pkg)⟩ whenever it parses at all
+    have hx : parseLabel cur (slash2 ++ l.pkg ++ cColon :: lastComp l.pkg) = some l := h
+    have : parseLabel cur (47 :: 47 :: (l.pkg ++ cColon :: lastComp l.pkg)) = some l := hx
+    simp only [parseLabel, takeWhile_colon_append hp, dropWhile_colon_append hp] at this
+    split at this
+    · simp at this
+    · split at this
+      · simp at this
+      · simp at this
+        have : lastComp l.pkg = l.name := by
+          have := congrArg Label.name this; simpa using this
+        simp [this]
+
+example : (Label.mk [116, 47, 97, 108] [108]).canBeShortened = false := by decide
+example : (Label.mk [116, 47, 108] [108]).canBeShortened = true := by decide
+
 /-- `:x` resolves against the current package (the root package is spelled "" not "."). -/
 theorem relative (cur x : Bytes) :
     parseLabel cur (cColon :: x) =
